@@ -18,16 +18,18 @@ def build(case):
 
     def f(t, y, **kw):
         return np.array([y[1], -y[0]], dtype=y.dtype)
-    a = de.OdeSystem(f, y0=y0, t=(dtype(t0), dtype(tf)), dt=dtype(case["dt0"]), rtol=dtype(1e-6), atol=dtype(1e-6), dense_output=bool(case["dense"]))
+    # 'against': the system is configured with the mirrored span and the run direction is chosen by integrate(t) alone
+    tf_cfg = (2 * t0 - tf) if case.get("against") else tf
+    a = de.OdeSystem(f, y0=y0, t=(dtype(t0), dtype(tf_cfg)), dt=dtype(case["dt0"]), rtol=dtype(1e-6), atol=dtype(1e-6), dense_output=bool(case["dense"]))
     a.method = lc.by_name(case["method"])
     b = driver.Budget(20000)
     if case["hist"] == "none":
         pass
     elif case["hist"] == "one":
-        a.integrate(callback=b)
+        a.integrate(dtype(tf), callback=b)
     elif case["hist"] == "continued":
         a.integrate(dtype(t0 + 0.5 * (tf - t0)), callback=b)
-        a.integrate(callback=b)
+        a.integrate(dtype(tf), callback=b)
     elif case["hist"] == "partial":
         a.integrate(dtype(t0 + 0.375 * (tf - t0)), callback=b)
     return a, dtype
@@ -140,7 +142,7 @@ def check_case(case):
 
 
 def run(ctx):
-    ctx.rule = ("every recorded grid of the declared family (uniform / adaptive x forward / backward / through zero / negative times x one call / continued / partial / never run "
+    ctx.rule = ("every recorded grid of the declared family (uniform / adaptive x forward / backward / through zero / negative times x one call / continued / partial / never run x {run along the configured span, run direction chosen by integrate(t) against the configured span} "
                 "x dense on/off x dtypes) x ALL integer indices in [-len-2, len+2] x query times {every recorded time and its two floating-point neighbours, every midpoint exactly "
                 "(tie) and +-2^j ulp for j in {0,1,2,10,20,30}, quarter points, outside both ends} x whole-run slices; reference = python list semantics with linear nearest search; "
                 "distinct = distinct (method, dense, direction, history, #rows) classes")
@@ -154,6 +156,8 @@ def run(ctx):
                 for hist in ("one", "continued", "partial", "none"):
                     for dn in (("float64",) if ctx.quick else ("float64", "float32", "longdouble")):
                         cases.append(dict(method=m, span=list(sp), dt0=dt0, dense=dense, hist=hist, dtype=dn))
+                        if hist != "none":
+                            cases.append(dict(method=m, span=list(sp), dt0=dt0, dense=dense, hist=hist, dtype=dn, against=True))
     grid.pmap(check_case, cases, ctx, horizon=300)
 
 
